@@ -1637,8 +1637,11 @@ func NilAuxiliary(p *core.Program, r *core.Report) {
 									continue
 								}
 								if v, ok := constInt64(info, x.Rhs[i]); !ok || v < 1 {
-									okLen = false
-									why = core.ExprStr(x)
+									// or the result of a module helper whose every return is a positive constant
+									if !returnsPositiveConstants(p, info, x.Rhs[i]) {
+										okLen = false
+										why = core.ExprStr(x)
+									}
 								}
 							}
 						}
@@ -1944,4 +1947,33 @@ func ConstructorCompleteness(p *core.Program, r *core.Report) {
 		})
 		r.Check(ok, "E2-N12-rep", sel.Key()+": a representative pod is never selected by a policy", p.Pos(sel.Decl.Pos()), "if p.IsPodRepresentative() { return false, nil }", "NetworkPolicy.Selects no longer rejects representative pods: they can now reach the cluster-wide exposure update with nil exposure data")
 	}
+}
+
+// returnsPositiveConstants: e is a call of a module function all of whose return statements give an integer constant >= 1.
+func returnsPositiveConstants(p *core.Program, info *types.Info, e ast.Expr) bool {
+	c, ok := ast.Unparen(e).(*ast.CallExpr)
+	if !ok {
+		return false
+	}
+	hd := p.ByObj[core.Callee(info, c)]
+	if hd == nil {
+		return false
+	}
+	hinfo := hd.Pkg.TypesInfo
+	n, all := 0, true
+	ast.Inspect(hd.Decl.Body, func(m ast.Node) bool {
+		if _, isLit := m.(*ast.FuncLit); isLit {
+			return false
+		}
+		if ret, isRet := m.(*ast.ReturnStmt); isRet {
+			n++
+			if len(ret.Results) != 1 {
+				all = false
+			} else if v, isC := constInt64(hinfo, ret.Results[0]); !isC || v < 1 {
+				all = false
+			}
+		}
+		return true
+	})
+	return n > 0 && all
 }
